@@ -42,13 +42,16 @@ def run(chk, prog):
     chk.floor("accessor use sites", n_uses, 4)
     # SIBLING agreement: transition_tensor and observation_tensor are the same construction over their own fields (grid, truncation, sigma): after renaming
     # the fields the two bodies must be the same expression - a sign that differs in one of them (`else -np.inf` vs `else np.inf` for sigma = 0) is a defect
-    import re as _re
-    def _norm_src(fn_):
-        txt = ast.unparse(fn_.body[-1])
-        return _re.sub(r"_(trans|obs)\b", "_X", txt)
+    def _rename_fields(t):
+        if isinstance(t, tuple):
+            if is_t(t, "attr") and isinstance(t[2], str) and (t[2].endswith("_trans") or t[2].endswith("_obs")):
+                return ("attr", _rename_fields(t[1]), t[2].rsplit("_", 1)[0] + "_X")
+            return tuple(_rename_fields(x) if isinstance(x, tuple) else x for x in t)
+        return t
     if {"transition_tensor", "observation_tensor"} <= set(cfg.methods):
-        a_, b_ = _norm_src(cfg.methods["transition_tensor"]), _norm_src(cfg.methods["observation_tensor"])
-        chk.require(a_ == b_, "SIBLING-DENSITY", "DiscreteHMMConfiguration/tensor-accessors", "transition_tensor vs observation_tensor", derived=f"transition: {a_[:200]}  |  observation: {b_[:200]}",
+        ta_ = _rename_fields(Evaluator(prog).eval_fn(cfg.methods["transition_tensor"], m, cfg).ret)
+        tb_ = _rename_fields(Evaluator(prog).eval_fn(cfg.methods["observation_tensor"], m, cfg).ret)
+        chk.require(ta_ == tb_, "SIBLING-DENSITY", "DiscreteHMMConfiguration/tensor-accessors", "transition_tensor vs observation_tensor", derived=f"transition: {show(ta_)[:200]}  |  observation: {show(tb_)[:200]}",
                     expected="the same construction up to the field suffix (_trans / _obs)", where=f"{m.rel}:{cfg.methods['transition_tensor'].lineno}")
     ev = Evaluator(prog)
     CFG, OBS = P("config"), P("observation_sequence")
